@@ -168,6 +168,11 @@ def body_bed(ch, ctx):
         # decoys whose type differs from the one asked for only by case / at the position of an SQL wildcard
         lines.append("c7\ts\tNoncoding_Exon\t%d\t%d\t.\t%s\t.\tParent=t1" % (exons[-1][1] + off, exons[-1][1] + off, strand))
         lines.append("c7\ts\tnoncoding-exon\t%d\t%d\t.\t%s\t.\tParent=t1" % (exons[0][0] + off, exons[-1][1] + off, strand))
+    # a block of another type strictly inside the LAST exon (only asked for by the nested-blocks call below)
+    nested = None
+    if exons and exons[-1][1] - exons[-1][0] >= 2:
+        nested = (exons[-1][0] + 1 + off, exons[-1][1] - 1 + off)
+        lines.append("c7\ts\tinner_block\t%d\t%d\t.\t%s\t.\tParent=t1" % (nested[0], nested[1], strand))
     for a, b in (reversed(cds) if cds_opt == "first_last_desc" else cds):
         lines.append("c7\ts\t%s\t%d\t%d\t.\t%s\t.\tParent=t1" % (child_type, a, b, strand))
     path = dbutil.write_text(ctx.fresh_dir(), "t.gff", "\n".join(lines) + "\n")
@@ -232,9 +237,9 @@ def body_bed(ch, ctx):
         ctx.check(same, "bed12-field-differs", dict(sig, field="via-gene-related-at-two-levels"), file=lines, got=got_g, transcript_line=got)
     # blocks of two types, one nested in the other: the block that starts last stops before the feature's end, so the blocks
     # "do not span the feature" whatever an earlier, longer block reaches
-    if len(exons) == 1 and cds_opt == "inner" and mode == "thick" and cds and cds[0][1] < te and spans_ok:
+    if nested is not None and mode == "thick" and spans_ok:
         try:
-            line = db.bed12(arg, block_featuretype=[btype, "CDS"], name_field=name_field)
+            line = db.bed12(arg, block_featuretype=[btype, "inner_block"], name_field=name_field)
             ctx.fail("bed12-did-not-raise-on-span-mismatch", dict(sig, nested_blocks=True), file=lines, got=line)
         except ValueError:
             pass
